@@ -381,7 +381,10 @@ def _param_root_only(b, ut, opened):
 
 
 def _writes_self_field(b, place):
-    if place[0] != 1:
-        # through a reborrow of self: accept `(*_n).field` where _n derives from self
+    if not any(e[0] == "field" for e in place[1]):
         return False
-    return any(e[0] == "field" for e in place[1])
+    if place[0] == 1:
+        return True
+    # through a reborrow of self (`Pin<&mut Self>` -> deref_mut): `(*_n).field` where _n derives from self
+    locs, _, _ = b.slice_back([place[0]])
+    return 1 in locs and any(e[0] == "deref" for e in place[1])
